@@ -82,6 +82,7 @@ std::string afterCallChecks(Circuit &c, const char *how) {
 
 bool prop(Tape &t, Report &R) {
   int stage = t.weighted({3, 3, 3});
+  HistoryScope hist(t, R);
   GenOpts o;
   o.maxCells = 12;
   o.maxLevels = 6;
